@@ -73,8 +73,14 @@ pub fn read_server_log(sim: &mut Sim) {
     let log = &sim.server.world().resource::<ServerLog>().0;
     let new: Vec<_> = log[sim.server_log_pos..].to_vec();
     sim.server_log_pos = log.len();
+    if sim.drain_logs {
+        // C06 floods the server with tens of thousands of frames: keep the harness's own log from growing
+        sim.server.world_mut().resource_mut::<ServerLog>().0.clear();
+        sim.server_log_pos = 0;
+    }
     for (kind, seq, sender, ent) in new {
         *sim.delivered_c.entry(seq).or_default() += 1;
+        sim.last_from.insert(sender, seq);
         if !sim.or.ev_once {
             continue;
         }
@@ -300,7 +306,7 @@ pub fn check_frame(sim: &mut Sim, ci: usize) -> Result<(), Fail> {
 pub fn check_converged(sim: &mut Sim) -> Result<(), Fail> {
     let nslots = sim.slots.len();
     for ci in 0..sim.clients.len() {
-        if !sim.authorized(ci) {
+        if !sim.authorized(ci) || sim.converge_only.as_ref().is_some_and(|v| !v.contains(&ci)) {
             continue;
         }
         let mut expected = 0;
